@@ -1,6 +1,6 @@
 // C12 harness: hexsim::Processor constructed in deliberately dirty storage.
 //   h_sim cases <in> <out>
-// fields: file (image), input, fin<k> (contents of simin<k>), fill (0..255 byte pattern, or 256 = PRNG), fillseed, maxcycles (0 = none), trace (0/1)
+// fields: file (image), input, prefile/preinput (an image simulated first in the same process), fin<k> (contents of simin<k>), fill (0..255 byte pattern, or 256 = PRNG), fillseed, maxcycles (0 = none), trace (0/1)
 // The Processor is placement-constructed in a buffer pre-filled with the pattern and run in
 // lock-step with the reference model, whose memory is zero outside the image as in hexb.pdf.
 #include <cstdio>
@@ -36,6 +36,19 @@ std::string simCase(const vio::Case &c) {
     unlink(("simin" + std::to_string(k)).c_str());
     std::string key = "fin" + std::to_string(k);
     if (c.has(key.c_str())) { std::ofstream f("simin" + std::to_string(k), std::ios::binary); f << c.str(key.c_str()); }
+  }
+  if (c.has("prefile")) {
+    // an earlier simulation in the same process (its own Processor object, run to its end and destroyed)
+    { std::ofstream f("pre.bin", std::ios::binary); f << c.str("prefile"); }
+    std::istringstream pin(c.str("preinput"));
+    std::ostringstream pout;
+    try {
+      auto pre = std::make_unique<hexsim::Processor>(pin, pout, (size_t)6000000);
+      pre->load("pre.bin");
+      pre->run();
+    } catch (...) {}
+    unlink("pre.bin");
+    for (int k = 0; k < 8; k++) unlink(("simout" + std::to_string(k)).c_str());
   }
   size_t sz = sizeof(hexsim::Processor);
   unsigned char *buf = (unsigned char *)aligned_alloc(64, (sz + 63) & ~(size_t)63);
